@@ -420,6 +420,223 @@ def compositions_replay(case, seed):
     return core.result(viol)
 
 
+# ------------------------------------------------- held outputs (no snapshots)
+
+
+def _compositions(n):
+    if n == 0:
+        yield []
+        return
+    for first in range(1, n + 1):
+        for rest in _compositions(n - first):
+            yield [first] + rest
+
+
+def held_config(c, seed):
+    """The property read literally, with real aliasing semantics: for every composition of every
+    n <= Nh the chunks are fed to ONE live computer (no deep copies), every returned array is HELD
+    until finalize has returned, and only then concatenated and compared with compute_full.  An
+    output that aliases an internal buffer which a later call overwrites is caught here."""
+    nh = c["Nh"]
+    ctx = Ctx(dict(c, Nmax=nh), seed)
+    if not ctx.in_domain:
+        return core.result(nontrivial=False, skipped=True, obs="out_of_domain")
+    viol = []
+    evals = 0
+    for n in range(nh + 1):
+        ref = ctx.ref[n]
+        if ref is None:
+            continue
+        for comp_ in _compositions(n):
+            for lead in ([], [0]):
+                chunks = lead + comp_
+                evals += 1
+                comp = computers.clone(ctx.comp0)
+                held = []
+                pos = 0
+                bad = None
+                for k in chunks:
+                    r = computers.call(comp.compute_chunk, ctx.x[pos:pos + k])
+                    pos += k
+                    if r[0] != "ok":
+                        bad = r
+                        break
+                    held.append(r[1])
+                if bad is None:
+                    r = computers.call(comp.finalize)
+                    if r[0] != "ok":
+                        bad = r
+                if bad is not None:
+                    viol.append(core.violation(ctx.tags(n, what="exception", op="held"),
+                                               "%s: %s" % bad[1:], ctx.case(chunks=chunks, held=True)))
+                    continue
+                got = np.concatenate(held + [r[1]]) if held else r[1]
+                if got.shape != ref.shape:
+                    viol.append(core.violation(
+                        ctx.tags(n, what="frame_count", op="held"),
+                        "chunks %r: %r vs compute_full %r" % (chunks, got.shape, ref.shape),
+                        ctx.case(chunks=chunks, held=True)))
+                elif not _close(got, ref, ctx.dtype):
+                    viol.append(core.violation(
+                        ctx.tags(n, what="values", op="held"),
+                        "chunks %r (outputs held until after finalize): max|diff|=%r" % (
+                            chunks, _maxdiff(got, ref)), ctx.case(chunks=chunks, held=True)))
+                if len(viol) > 20:
+                    return core.result(viol, evals=evals, nontrivial_count=evals, obs=len(viol))
+    return core.result(viol, evals=evals, nontrivial_count=evals, obs=len(viol),
+                       sample=dict(config=c, Nh=nh, sequences=evals))
+
+
+def held_replay(case, seed):
+    c = case["config"]
+    chunks = case["chunks"]
+    n = sum(chunks)
+    ctx = Ctx(dict(c, Nmax=max(n, 1)), seed)
+    comp = computers.clone(ctx.comp0)
+    held, pos = [], 0
+    for k in chunks:
+        r = computers.call(comp.compute_chunk, ctx.x[pos:pos + k])
+        pos += k
+        if r[0] != "ok":
+            return core.result([core.violation(ctx.tags(n, what="exception", op="held"), str(r), case)])
+        held.append(r[1])
+    r = computers.call(comp.finalize)
+    if r[0] != "ok":
+        return core.result([core.violation(ctx.tags(n, what="exception", op="held"), str(r), case)])
+    got = np.concatenate(held + [r[1]]) if held else r[1]
+    ref = ctx.ref[n]
+    if got.shape != ref.shape:
+        return core.result([core.violation(ctx.tags(n, what="frame_count", op="held"),
+                                           "%r vs %r" % (got.shape, ref.shape), case)])
+    if not _close(got, ref, ctx.dtype):
+        return core.result([core.violation(ctx.tags(n, what="values", op="held"),
+                                           "max|diff|=%r" % _maxdiff(got, ref), case)])
+    return core.result([])
+
+
+# ------------------------------------------------- two live instances, all interleavings
+
+
+def _interleavings(na, nb):
+    """all sequences over {'A','B'} with na A's and nb B's"""
+    if na == 0:
+        yield "B" * nb
+        return
+    if nb == 0:
+        yield "A" * na
+        return
+    for rest in _interleavings(na - 1, nb):
+        yield "A" + rest
+    for rest in _interleavings(na, nb - 1):
+        yield "B" + rest
+
+
+def interleaved_config(pt, seed):
+    """Two LIVE computers (no snapshots) with configurations ca and cb stream two different signals;
+    the compute_chunk / finalize calls of the two streams are interleaved in EVERY possible order
+    (a schedule enumeration), for every pair of chunkings from a small set.  Each stream must equal
+    compute_full of its own signal: one instance's output may not depend on what another instance is
+    doing (shared buffers at module/class scope, caches keyed too coarsely)."""
+    ca, cb = pt
+    ctxa = Ctx(dict(ca, Nmax=ca["Ni"]), seed)
+    ctxb = Ctx(dict(cb, Nmax=cb["Ni"]), seed + 1)
+    if not (ctxa.in_domain and ctxb.in_domain):
+        return core.result(nontrivial=False, skipped=True, obs="out_of_domain")
+    na, nb = ca["Ni"], cb["Ni"]
+
+    def chunkings(n, L, S):
+        out = [[n], [1] * n]
+        out.append([S] * (n // S) + ([n % S] if n % S else []))
+        if n > L + 1:
+            out.append([L + 1, n - L - 1])
+        out.append([0, n // 2, 0, n - n // 2])
+        uniq = []
+        for c in out:
+            if c not in uniq and len(c) <= 6:
+                uniq.append(c)
+        return uniq
+
+    viol = []
+    evals = 0
+    for cha in chunkings(na, ctxa.comp0.frame_length, ctxa.comp0.frame_shift):
+        for chb in chunkings(nb, ctxb.comp0.frame_length, ctxb.comp0.frame_shift):
+            opsa = [("chunk", k) for k in cha] + [("fin",)]
+            opsb = [("chunk", k) for k in chb] + [("fin",)]
+            for sched in _interleavings(len(opsa), len(opsb)):
+                evals += 1
+                A = cfg.make_computer(ca)   # fresh live pair per schedule, built like a user would
+                B = cfg.make_computer(cb)
+                st = {"A": [A, ctxa, iter(opsa), 0, []], "B": [B, ctxb, iter(opsb), 0, []]}
+                bad = None
+                for who in sched:
+                    comp, ctx, it, pos, outs = st[who]
+                    op = next(it)
+                    if op[0] == "chunk":
+                        r = computers.call(comp.compute_chunk, ctx.x[pos:pos + op[1]])
+                        st[who][3] = pos + op[1]
+                    else:
+                        r = computers.call(comp.finalize)
+                    if r[0] != "ok":
+                        bad = (who, r)
+                        break
+                    outs.append(r[1])
+                case = dict(pair=[ca, cb], chunks_a=cha, chunks_b=chb, schedule=sched)
+                tags0 = dict(kind=ca["kind"], what="interleaved", same_L=bool(
+                    ctxa.comp0.frame_length == ctxb.comp0.frame_length), same_config=bool(ca == cb))
+                if bad is not None:
+                    viol.append(core.violation(dict(tags0, aspect="exception", exc=bad[1][1]),
+                                               "schedule %s: stream %s raised %s: %s" % (
+                                                   sched, bad[0], bad[1][1], bad[1][2]), case))
+                    continue
+                for who, ctx, n in (("A", ctxa, na), ("B", ctxb, nb)):
+                    got = np.concatenate(st[who][4])
+                    ref = ctx.ref[n]
+                    if ref is None:
+                        continue
+                    if got.shape != ref.shape or not _close(got, ref, ctx.dtype):
+                        viol.append(core.violation(
+                            dict(tags0, aspect="values" if got.shape == ref.shape else "frame_count"),
+                            "two live computers, schedule %s, chunks A=%r B=%r: stream %s differs from "
+                            "compute_full of its own signal (max|diff|=%r)" % (
+                                sched, cha, chb, who, _maxdiff(got, ref)), case))
+                        break
+                if len(viol) > 10:
+                    return core.result(viol, evals=evals, nontrivial_count=evals, obs=len(viol))
+    return core.result(viol, evals=evals, nontrivial_count=evals, obs=len(viol),
+                       sample=dict(A=ca, B=cb, schedules=evals))
+
+
+def interleaved_replay(case, seed):
+    ca, cb = case["pair"]
+    ctxa = Ctx(dict(ca, Nmax=ca["Ni"]), seed)
+    ctxb = Ctx(dict(cb, Nmax=cb["Ni"]), seed + 1)
+    A, B = cfg.make_computer(ca), cfg.make_computer(cb)
+    opsa = [("chunk", k) for k in case["chunks_a"]] + [("fin",)]
+    opsb = [("chunk", k) for k in case["chunks_b"]] + [("fin",)]
+    st = {"A": [A, ctxa, iter(opsa), 0, []], "B": [B, ctxb, iter(opsb), 0, []]}
+    tags0 = dict(kind=ca["kind"], what="interleaved", same_L=bool(
+        ctxa.comp0.frame_length == ctxb.comp0.frame_length), same_config=bool(ca == cb))
+    for who in case["schedule"]:
+        comp, ctx, it, pos, outs = st[who]
+        op = next(it)
+        if op[0] == "chunk":
+            r = computers.call(comp.compute_chunk, ctx.x[pos:pos + op[1]])
+            st[who][3] = pos + op[1]
+        else:
+            r = computers.call(comp.finalize)
+        if r[0] != "ok":
+            return core.result([core.violation(dict(tags0, aspect="exception", exc=r[1]), str(r), case)])
+        outs.append(r[1])
+    for who, ctx, n in (("A", ctxa, ca["Ni"]), ("B", ctxb, cb["Ni"])):
+        got = np.concatenate(st[who][4])
+        ref = ctx.ref[n]
+        if got.shape != ref.shape or not _close(got, ref, ctx.dtype):
+            return core.result([core.violation(
+                dict(tags0, aspect="values" if got.shape == ref.shape else "frame_count"),
+                "stream %s differs" % who, case)])
+    return core.result([])
+
+
 # ------------------------------------------------- lattices
 
 
@@ -494,6 +711,24 @@ def subchecks(tier, seed):
                 if c["L"] <= 8 and c["window"] == "hamming" and c["pad"]] + \
                [dict(c, fbf_nmax=24 if tier == "quick" else 40) for c in si
                 if c["window"] == "hamming" and c["pad"]]
+    nh = 8 if tier == "quick" else 11
+    held_cfgs = [dict(c, Nh=nh) for c in stft
+                 if c["bank"] == "tri" and c.get("dtype") is None and c["L"] in (2, 3, 4, 5)
+                 and c["window"] == "hamming" and c["pad"]] + \
+                [dict(c, Nh=nh + 2) for c in si
+                 if c["bank"] in ("gabor", "gammatone") and c["S"] in (2, 3) and c["pad"]
+                 and c["window"] == "hamming"]
+    il_alpha = [dict(kind="stft", bank="tri", L=5, S=2, style="causal", kaldi=False, window="hamming",
+                     pad=True, energy=True, log=True, Ni=12),
+                dict(kind="stft", bank="tri", L=5, S=3, style="centered", kaldi=False, window="hamming",
+                     pad=False, energy=True, log=True, Ni=11),
+                dict(kind="stft", bank="gabor", L=6, S=2, style="centered", kaldi=True, window=None,
+                     pad=True, energy=False, log=True, Ni=13),
+                dict(kind="si", bank="gabor", S=2, style="centered", pad=True, window="hamming",
+                     energy=True, log=True, Ni=40),
+                dict(kind="si", bank="gammatone", S=3, style="causal", pad=True, window=None,
+                     energy=True, log=True, Ni=41)]
+    il_pts = [(a, b) for a in il_alpha for b in il_alpha]
     axes_stft = dict(L_S="all 1<=S<=L<=8 plus (25,10)" + (", L 9..12, 8k/16k geometry" if tier == "thorough" else ""),
                      style=["causal", "centered", "centered+kaldi_shift"], window=WINDOWS,
                      pad=[True, False], chunk_len="every k in 0..Nmax-n from every state",
@@ -515,6 +750,18 @@ def subchecks(tier, seed):
             "fbf", fbf_cfgs, lambda c: fbf_config(c, seed),
             "frame_by_frame_calculation for every N<=Nmax and EVERY chunk_size 1..N+1 vs compute_full",
             replay=lambda case: fbf_replay(case, seed), chunk=2),
+        core.SubCheck(
+            "interleaved_instances", il_pts, lambda p: interleaved_config(p, seed),
+            "schedule enumeration: for every ordered pair of configurations (incl. identical ones) two "
+            "live computers stream different signals; EVERY interleaving of their compute_chunk/finalize "
+            "calls, for every pair of chunkings from {whole, single samples, shift-sized, L+1 split, with "
+            "empty chunks}, must leave each stream equal to compute_full of its own signal",
+            replay=lambda case: interleaved_replay(case, seed), chunk=1, kind="explore"),
+        core.SubCheck(
+            "held_outputs", held_cfgs, lambda c: held_config(c, seed),
+            "every composition of every n<=Nh fed to ONE live computer with all returned arrays held "
+            "until after finalize, then concatenated (real aliasing semantics, no snapshots)",
+            replay=lambda case: held_replay(case, seed), chunk=1, kind="explore"),
         core.SubCheck(
             "compositions", comp_cfgs, lambda c: compositions_config(c, seed),
             "unmerged cross-check: every composition of every n<=Ncomp (2^Ncomp paths per "
